@@ -183,6 +183,15 @@ func (bt *Batch) finish(pc *pendingCase, outl []string) {
 			continue
 		}
 		if outl[i] != "ok" {
+			if strings.HasPrefix(lines[i], "rrule ") && !Seen["installed-rule-malformed"] {
+				Seen["installed-rule-malformed"] = true
+				// a rule the real code installed that is not a rule of the modelled rule language at all (e.g. a match
+				// or a target given twice because words of an earlier rule leaked into it): never what a NetworkPolicy
+				// compiles to
+				rep.Violations = append(rep.Violations, hx.Violation{Signature: "installed-rule-malformed",
+					What:   "the real manager installed a rule outside the rule language of the compiler: " + clip(lines[i]),
+					Replay: replayAs("-installed-rule-malformed")})
+			}
 			rep.Disagree = append(rep.Disagree, hx.Disagreement{Where: "driver-line", Index: i, Impl: lines[i],
 				Model: outl[i], Replay: replay()})
 			return
